@@ -2431,7 +2431,9 @@ def default_save_handler(
   else:
     raise ValueError(f'Unsupported `file_format`: {file_format!r}.')
 
-  pg_io.mkdirs(os.path.dirname(path), exist_ok=True)
+  parent_dir = os.path.dirname(path)
+  if parent_dir:
+    pg_io.mkdirs(parent_dir, exist_ok=True)
   pg_io.writefile(path, content)
 
 
